@@ -352,6 +352,11 @@ def rand_bits_grammar(rnd, total=8):
         left -= w
     rules = {"<bit>": alt(lit_bit(0), lit_bit(1))}
     parts = []
+    free = [0]          # number of unconstrained bits so far: keeps the language (and its enumeration) small
+
+    def free_bits(w):
+        free[0] += w
+        return free[0] <= 5
     for i, w in enumerate(widths):
         name = "<f%d>" % (i + 1)
         opts = []
@@ -359,13 +364,91 @@ def rand_bits_grammar(rnd, total=8):
             r = rnd.random()
             if r < 0.4:
                 opts.append(cat(*[lit_bit(rnd.randint(0, 1)) for _ in range(w)]) if w > 1 else lit_bit(rnd.randint(0, 1)))
-            elif r < 0.7:
+            elif r < 0.7 and free_bits(w):
                 opts.append(rep(nt("<bit>"), w, w))
+            elif not free_bits(1):
+                opts.append(cat(*[lit_bit(rnd.randint(0, 1)) for _ in range(w)]) if w > 1 else lit_bit(rnd.randint(0, 1)))
             else:
-                k = rnd.randint(0, w - 1)
+                k = rnd.randint(max(0, w - 2), w - 1)
                 xs = [lit_bit(rnd.randint(0, 1)) for _ in range(k)] + [rep(nt("<bit>"), w - k, w - k)]
                 opts.append(cat(*xs) if len(xs) > 1 else xs[0])
         rules[name] = alt(*opts) if len(opts) > 1 else opts[0]
         parts.append(nt(name))
     rules["<start>"] = cat(*parts) if len(parts) > 1 else parts[0]
     return {"start": "<start>", "rules": rules, "flavour": "bits"}
+
+
+def count_derivations(g, max_units, cap=10 ** 7):
+    """Number of derivation trees of words with <= max_units units (an estimate used only to keep the enumerated
+    corpus small; repetition counts capped at max_units + 1 like spec/Lang.tla)."""
+    rules = g["rules"]
+    memo = {}
+    busy = set()
+
+    def conv(a, b):
+        out = [0] * (max_units + 1)
+        for i, x in enumerate(a):
+            if x:
+                for j, y in enumerate(b):
+                    if y and i + j <= max_units:
+                        out[i + j] = min(cap, out[i + j] + x * y)
+        return out
+
+    def cnt(n):
+        k = n["k"]
+        if k == "lit":
+            out = [0] * (max_units + 1)
+            if len(n["v"]) <= max_units:
+                out[len(n["v"])] = 1
+            return out
+        if k == "re":
+            out = [1] + [0] * max_units
+            for it in n["items"]:
+                one = [0] * (max_units + 1)
+                for c in range(it["lo"], min(it["hi"], max_units) + 1):
+                    one[c] = min(cap, len(it["set"]) ** c)
+                out = conv(out, one)
+            return out
+        if k == "nt":
+            s_ = n["s"]
+            if s_ in memo:
+                return memo[s_]
+            if s_ in busy:
+                return prev_memo.get(s_, [0] * (max_units + 1))
+            busy.add(s_)
+            r = cnt(rules[s_])
+            busy.discard(s_)
+            memo[s_] = r
+            return r
+        if k == "alt":
+            out = [0] * (max_units + 1)
+            for x in n["xs"]:
+                out = [min(cap, a + b) for a, b in zip(out, cnt(x))]
+            return out
+        if k == "cat":
+            out = [1] + [0] * max_units
+            for x in n["xs"]:
+                out = conv(out, cnt(x))
+            return out
+        if k == "rep":
+            body = cnt(n["xs"][0])
+            hi = min(n["hi"], max_units + 1)
+            out = [0] * (max_units + 1)
+            power = [1] + [0] * max_units
+            for c in range(0, hi + 1):
+                if c >= n["lo"]:
+                    out = [min(cap, a + b) for a, b in zip(out, power)]
+                power = conv(power, body)
+            return out
+        return [0] * (max_units + 1)
+    # recursion through `busy` undercounts recursive rules on the first pass: iterate to a fixed point
+    prev = None
+    prev_memo = {}
+    for _ in range(2 * max_units + 4):
+        memo.clear()
+        total = sum(cnt(rules[g["start"]]))
+        prev_memo = dict(memo)
+        if total == prev:
+            break
+        prev = total
+    return prev or 0
